@@ -297,11 +297,11 @@ def raise_site(e):
     return "%s:%s" % (co.co_filename.split("/armulator/")[-1], co.co_name)
 
 
-def call_translate(cpu, va, priv, write):
+def call_translate(cpu, va, priv, write, wasaligned=True):
     from armulator.armv6.arm_exceptions import DataAbortException
     signal.setitimer(signal.ITIMER_VIRTUAL, HANG_S)
     try:
-        d = cpu.translate_address(va, priv, write, 4, True)
+        d = cpu.translate_address(va, priv, write, 4, wasaligned)
         return ("ok", d.paddress.physicaladdress, d.paddress.ns, norm_attrs(d.memattrs))
     except DataAbortException as e:
         return ("abort", bool(e.second_stage_abort()))
@@ -469,6 +469,22 @@ def run_setup(ctx, res, p, extra=False, privs=(True, False), writes=(False, True
                 plan.restore(pre)
         if not mem_same:
             plan.restore(pre)
+        if ctx.cfgd.get("have_virt_ext") and exp[0] == "ok" and exp[1].attrs is not None and m is None:
+            # an access that was NOT naturally aligned: with the Virtualization Extensions an unaligned access to Device
+            # or Strongly-ordered memory takes an Alignment fault (reported through the LPAE-format hook here); to
+            # Normal memory nothing changes
+            res.cases += 1
+            exp2 = exp if exp[1].attrs["type"] == "NORMAL" else ("notimpl", HOOK_LPAE_FAULT)
+            got2 = call_translate(cpu, va, priv, write, wasaligned=False)
+            res.transitions += 1
+            res.outcome("unaligned " + ("ok" if exp2[0] == "ok" else "device-alignment-fault"))
+            m2 = judge(ctx, exp2, got2, pre, plan.regs(), plan.mem() == pre[1], write)
+            if m2 is not None:
+                res.fail("translate unaligned-access %s %s" % (exp[1].attrs["type"], m2[0]),
+                         "va=%#x priv=%d write=%d %s | %s" % (va, priv, write, fmt_p(p), m2[1]),
+                         dict(p, via="translate", va=va, priv=priv, write=write, wasaligned=False))
+            if plan.regs() != pre[0] or plan.mem() != pre[1]:
+                plan.restore(pre)
 
 
 def fmt_p(p):
